@@ -866,8 +866,25 @@ def c07e(chk):
                         if callee_is(t["callee"], N.DEREF):
                             continue
                         touch.append(nm)
+        # and the slices handed to the readers / the detector derive from the buffer through deref / [..] / reborrows only
+        ALLOWED = ("std::io::Read::read_to_end", "core::ops::deref::Deref::deref", "core::ops::index::Index::index", "std::io::stdio::Stdin::lock", "std::io::stdio::stdin",
+                   "sfs_core::input::Input::open", "core::option::Option::<T>::unwrap_or", "core::ops::try_trait::Try::branch", "alloc::vec::Vec::<T>::new")
+        for b, t in r.calls():
+            if callee_is(t["callee"], TEXT + "read_scs", "sfs_core::array::Array::<f64>::read_npy"):
+                sl, info = r.slice_locals(t["args"][0])
+                for _, c in info["calls"]:
+                    if not callee_is(c["callee"], *ALLOWED):
+                        touch.append("%s feeds %s" % (callee_name(c["callee"]), callee_name(t["callee"]).split("::")[-1]))
+        for c in chk.prog.closures_of(READ_BUILDER_READ):
+            for b, t in c.calls():
+                if callee_is(t["callee"], IOFMT + "::detect"):
+                    sl, info = c.slice_locals(t["args"][0])
+                    extra = [callee_name(x[1]["callee"]) for x in info["calls"] if not callee_is(x[1]["callee"], *ALLOWED)]
+                    caps = an.closure_captures(r, c.path) or []
+                    if extra or not any(cp is not None and cp[0] == raw for cp in caps):
+                        touch.append("detect sees %s (captures %s)" % (extra, caps))
         chk.ob("C07.e", "read::Builder::read/buffer-untouched-before-parsing", not touch, r.loc(),
-               "the bytes read are handed to detection and to the reader as they are; other operations on the buffer: %s" % touch)
+               "the bytes read are handed to detection and to the reader as they are; other operations on the buffer: %s" % sorted(set(touch)))
 
 
 # ====================================================================================
@@ -1036,6 +1053,15 @@ def c16c(chk):
                             names.add(callee_name(dd[2]["callee"]))
                     if names == {"alloc::vec::Vec::<T, A>::len", "sfs_core::array::shape::Shape::elements"}:
                         good = bool(oks) and all(an.dominated_by_edge(an_, sb, st["otherwise"], b) for b in oks)
+                if d and d[0] == "assign" and d[3]["k"] == "binop" and d[3]["op"] == "Ne":
+                    names = set()
+                    for side in ("l", "r"):
+                        l = op_local(d[3][side])
+                        dd = an_.single_def(an_.copy_root(l)) if l is not None else None
+                        if dd and dd[0] == "call":
+                            names.add(callee_name(dd[2]["callee"]))
+                    if names == {"alloc::vec::Vec::<T, A>::len", "sfs_core::array::shape::Shape::elements"}:
+                        good = bool(oks) and all(an.dominated_by_edge(an_, sb, an.edge_target(st, 0), b) for b in oks)
         chk.ob("C16.c", "Array::new/Ok<=len==elements", good, an_.loc(), "Ok(..) is constructed only on the true edge of data.len() == shape.elements()")
     se = chk.fn("sfs_core::array::shape::Shape::elements")
     if se is not None:
@@ -1278,7 +1304,9 @@ def c18c(chk):
                 if rv["k"] == "unop" and rv["op"] == "PtrMetadata" and op_place(rv["operand"]) and op_place(rv["operand"])[0] in derived:
                     sinks.add("len")
             content = sorted(x for x in sinks if x not in ("core::slice::<impl [T]>::is_empty",))
-            chk.ob("C18.c", "fill_buf@%s/only-emptiness" % f.path, not content, f.loc(b),
+            # the key names the sinks, so that a further content-dependent decision at an already recorded site is a new violation
+            kx = ("[sinks=%s]" % ",".join(x.split("::")[-1] for x in content)) if content else ""
+            chk.ob("C18.c", "fill_buf@%s/only-emptiness%s" % (f.path, kx), not content, f.loc(b),
                    "the bytes returned by fill_buf (one chunk of unspecified length) may only be tested with is_empty(); here they also flow into %s, "
                    "so the decision depends on how the stream was chunked" % content)
 
